@@ -16,7 +16,15 @@ def fast_poll():
     import time as _time
     import pyndl.preprocess as pp
     real = _time.sleep
-    pp.time = types.SimpleNamespace(sleep=lambda s: real(min(s, 0.01)))
+    short = lambda s: real(min(s, 0.01))      # noqa: E731
+    # whichever way the module reaches sleep (`import time` or `from time import sleep`); everything else of the
+    # time module stays available
+    if hasattr(pp, "time"):
+        ns = types.SimpleNamespace(**{k: getattr(_time, k) for k in dir(_time) if not k.startswith("__")})
+        ns.sleep = short
+        pp.time = ns
+    if hasattr(pp, "sleep"):
+        pp.sleep = short
 
 
 def write_event_file(path, events, freq=None, gz=True, header="cues\toutcomes"):
